@@ -1,6 +1,8 @@
 package jerr
 
 import (
+	"unicode/utf8"
+
 	"github.com/jsightapi/jsight-schema-core/bytes"
 )
 
@@ -15,6 +17,10 @@ func quote(content bytes.Bytes, position bytes.Index) string {
 	end := content.EndOfLine(position)
 	if end-begin > maxLength {
 		end = begin + maxLength - 3
+		// Do not cut a multibyte character in two: the quote is a text.
+		for i := 0; i < utf8.UTFMax-1 && end > begin && !utf8.RuneStart(content.Byte(end)); i++ {
+			end--
+		}
 		return content.Sub(begin, end).TrimSpacesFromLeft().String() + "..."
 	}
 	return content.Sub(begin, end).TrimSpacesFromLeft().String()
